@@ -766,11 +766,15 @@ func runFresh(c freshCase) (key, msg string, inconclusive bool) {
 		return true
 	}
 	var ready, goFlag int32
+	fewCores := runtime.GOMAXPROCS(0) <= c.Starters
 	for i := 0; i < c.Starters; i++ {
 		m := mk()
 		go func() {
 			atomic.AddInt32(&ready, 1)
 			for atomic.LoadInt32(&goFlag) == 0 {
+				if fewCores {
+					runtime.Gosched()
+				}
 			}
 			sub(m)
 		}()
